@@ -49,6 +49,9 @@ pub fn plain_program(kind: Kind, seed: u64) -> Program {
     if let Ctor::Sdt { len, .. } = &mut p.ctor {
         *len = 36 + (*len % 64);
     }
+    if let Ctor::Slit(n) = &mut p.ctor {
+        *n = 8;
+    }
     p
 }
 
@@ -83,6 +86,11 @@ fn prelude_for(op: &Op, cat: &BTreeMap<&'static str, Vec<Op>>) -> Vec<Op> {
 /// (or drop the references when there is no prelude)
 fn rebase_refs(op: &Op, have: bool) -> Op {
     let mut o = op.clone();
+    if let Op::SlitSet(a, b, _) = &mut o {
+        // directed SLIT histories run on an 8x8 matrix
+        *a %= 8;
+        *b %= 8;
+    }
     if !have {
         match &mut o {
             Op::PpttCache { sets } => sets.retain(|s| !matches!(s, CacheSet::Next(_))),
